@@ -111,9 +111,54 @@ type c20Part struct {
 	result []string
 }
 
+// T1Alt / T2Alt: tables and indexes with the SAME NAMES as T1 / T2 but other
+// definitions (column order, rowid alias position, collations, defaults, index
+// columns, primary key), so that anything remembered by table or index name
+// across handles gives a wrong answer on the other file.
+func T1Alt(n int) dbgen.Table {
+	t := dbgen.Table{
+		Name: "t1", SQL: "CREATE TABLE t1 (c, a INTEGER PRIMARY KEY, e DEFAULT 'other', b COLLATE RTRIM, d UNIQUE)", NCols: 5,
+		ColNames: []string{"c", "a", "e", "b", "d"}, RowidAlias: 1, Defaults: []interface{}{nil, nil, "other", nil, nil}, ColColl: []string{"", "", "", "rtrim", ""},
+	}
+	bvals := []interface{}{"apple", "apple ", "Apple", "pear", nil, "fig  ", int64(3)}
+	for i := 0; i < n; i++ {
+		row := dbgen.Row{Rowid: int64(i*4 + 20), Vals: []interface{}{mixVal(i + 1), nil, fmt.Sprintf("E%d", i), bvals[i%len(bvals)], int64(1000 - i)}}
+		if i%3 == 2 {
+			row.Short = 2
+			row.Vals[3], row.Vals[4] = nil, nil
+		}
+		t.Rows = append(t.Rows, row)
+	}
+	t.Indexes = []dbgen.Index{
+		{Name: "sqlite_autoindex_t1_1", Cols: []dbgen.IdxCol{{Col: 4}}},
+		{Name: "t1_bc", SQL: "CREATE INDEX t1_bc ON t1 (c, b)", Cols: []dbgen.IdxCol{{Col: 0}, {Col: 3, Coll: "rtrim"}}},
+		{Name: "t1_c_rt", SQL: "CREATE INDEX t1_c_rt ON t1 (c DESC)", Cols: []dbgen.IdxCol{{Col: 0, Desc: true}}},
+	}
+	return t
+}
+
+func T2Alt(n int) dbgen.Table {
+	t := dbgen.Table{
+		Name: "t2", SQL: "CREATE TABLE t2 (d, c, b, a, PRIMARY KEY (a, b)) WITHOUT ROWID", NCols: 4, ColNames: []string{"d", "c", "b", "a"}, RowidAlias: -1, WithoutRowid: true,
+		Defaults: make([]interface{}, 4), PK: []dbgen.IdxCol{{Col: 3}, {Col: 2}}, ColColl: make([]string, 4),
+	}
+	for i := 0; i < n; i++ {
+		t.Rows = append(t.Rows, dbgen.Row{Vals: []interface{}{fmt.Sprintf("D%d", i), mixVal(i), int64(i % 3), int64(1 + i/3)}})
+	}
+	t.Indexes = []dbgen.Index{{Name: "t2_c", SQL: "CREATE INDEX t2_c ON t2 (d)", Cols: []dbgen.IdxCol{{Col: 0}}}}
+	return t
+}
+
 func c20Images() ([]byte, []byte) {
 	a := &dbgen.Spec{PageSize: 512, Tables: []dbgen.Table{T1(rowidSet(6, 2), 600), T2(5, 0)}}
-	b := &dbgen.Spec{PageSize: 1024, Tables: []dbgen.Table{T1(rowidSet(8, 0), 0), T2(7, 1200)}}
+	b := &dbgen.Spec{PageSize: 1024, Tables: []dbgen.Table{T1Alt(9), T2Alt(7)}}
+	for _, sp := range []*dbgen.Spec{a, b} {
+		if img, err := dbgen.Build(sp); err != nil {
+			panic(err)
+		} else if err := Conform(sp, img); err != nil {
+			panic("C20 image does not conform: " + err.Error())
+		}
+	}
 	ia, err := dbgen.Build(a)
 	if err != nil {
 		panic(err)
